@@ -13,7 +13,12 @@ sed -i 's/^go 1\.[0-9.]*$/go 1.21/' "$S/repo/go.mod"
 if [ ! -x $V/bin/simify ]; then (cd $V/simify && go build -o $V/bin/simify .) || exit 2; fi
 SIMIFY_FLAGS=${SIMIFY_FLAGS:-}
 (cd "$S/repo" && $V/bin/simify -dir "$S/repo" $SIMIFY_FLAGS) > "$S/simify.log" 2>&1 || { cat "$S/simify.log"; echo "prep: simify failed" >&2; exit 2; }
-mkdir -p "$S/h" && cp $V/harness/*.go $V/harness/go.mod "$S/h/" || exit 2
+mkdir -p "$S/h" && cp $V/harness/*.go $V/harness/go.mod "$S/h/" && cp -r $V/harness/schemas "$S/h/" || exit 2
+# generated models: the repository's own modelgen on the committed schema files
+for v in 0 1 2; do
+  mkdir -p "$S/h/ks$v"
+  (cd "$REPO" && go run ./cmd/modelgen -extended -p ks$v -o "$S/h/ks$v" $V/harness/schemas/ks$v.ovsschema) > "$S/modelgen.log" 2>&1 || { cat "$S/modelgen.log"; echo "prep: modelgen failed" >&2; exit 2; }
+done
 cp "$REPO/go.sum" "$S/h/go.sum"
 [ -f $V/harness/go.sum ] && cat $V/harness/go.sum >> "$S/h/go.sum"
 (cd "$S/h" && go1.26.8 test -c -o "$S/harness.test" . ) > "$S/build.log" 2>&1 || { tail -50 "$S/build.log"; echo "prep: harness build failed" >&2; exit 2; }
